@@ -21,9 +21,15 @@ RULE = ('cases = (outcome of each of the 16 filters named in rcpt_cbs[], filterc
         'results / random; files built from lines about fail_hard_on_temp, nonexist_on_block and the probe key in the forms bare, '
         '=1, =0, =-1, =-5, =<big>, =LONG_MAX(+1), =LONG_MIN(-1), empty value, junk value, +3, CR before the value, longer and shorter '
         'key, duplicates with the first line 0, comments, escaped #, trailing blanks, inner blanks (load error), NUL bytes, no final '
-        'newline; stage 2 cases with the real cb_boolean/smtpbugs/spf/usersize and sessions (SPF status, TLS, AUTH, ESMTP, MAIL FROM shape, SIZE, '
+        'newline; rfilters engine: one real filter function per case (badcc, badmailfrom, check2822, dnsbl, forceesmtp, fromdomain, helo, ipbl, namebl, '
+        'nomail, soberg) on a generated tree of list / filterconf files at user, domain and global level with scripted DNS answers, MX lists and session; '
+        'stage 2 cases with the real cb_boolean/smtpbugs/spf/usersize and sessions (SPF status, TLS, AUTH, ESMTP, MAIL FROM shape, SIZE, '
         'blanks in the current RCPT TO line, space-bug flag already recorded by MAIL FROM or by an earlier real RCPT TO); non-trivial = the C rejected the recipient or a probe returned a non-zero value; distinct by case text')
 TRUSTED_BASE = [
+    'rfilters engine: harness/rfilters_h.c + rfilters_real.c (all sixteen real filter files, rcpt_filters.c, getfile.c, vpop.c, addrsyntax.c, antispam.c, control.c, '
+    'match.c, mmap.c, dns_helpers.c, fmt.c; stand-ins for ask_dnsa/dnstxt, net_writen/netnwrite, log_*); ocaml/rfilters_driver.ml; reused models and theorems of '
+    'C14 (checkaddr, domainvalid), C16 (finddomain, check_ip4/6, ip4/ip6_matchnet, loadoneliner)',
+
     'Coq 8.16.1 kernel (coqc; coqchk in thorough); vm_compute only on closed terms built from generated constants (reply templates, enum values) and in the examples; no native_compute',
     'axioms: none (Print Assumptions: Closed under the global context for all theorems)',
     'translator tools/translators/filters.py: regexes over qsmtpd/commands.c (smtp_rcpt), qsmtpd/filters/rcpt_filters.c, include/qsmtpd/userfilters.h, userconf.h, '
@@ -38,6 +44,10 @@ TRUSTED_BASE = [
     '(capture), log_*, tarpit, err_control*; gcc 12 -O1 ASan+UBSan -DNDEBUG vs. the production build',
 ]
 ASSUMPTIONS = [
+    'rfilters engine: DNS is an oracle (the sequence of answers of ask_dnsa(); dnstxt() fails); the reply of a filter is captured before net_writen() folds it (C10); '
+    'xmitstat fields are set directly (HELO status, SPF status, frommx, fromdomain result); sender and recipient addresses have one @ (addrsyntax, C14); '
+    'file access errors other than "no such file" (EACCES, ENOLCK, ENOMEM) are not exercised; cb_wildcardns is not modelled',
+
     'the individual filters are replaced by stand-ins returning the case\'s outcome, except cb_boolean, cb_smtpbugs, cb_spf, cb_usersize which stage 2 runs for real '
     '(modelled for sessions without spfignore / rspf / spfstrict files and with an empty reverse lookup); the other twelve real filters are outside C12\'s theorems',
     'a filter returning FILTER_DENIED_WITH_MESSAGE has sent a 5xx reply itself (the stand-in sends 554 5.7.1)',
